@@ -231,7 +231,17 @@ def channel_ready_points(S, D):
     CR = D.variant_index('ChannelState', 'ChannelReady', hint='channel.rs')
     ctx0 = rd(mem[ch.cell], FC, 'context', 'ln::channel::ChannelContext<SP>')
     st0 = rd(ctx0, CC, 'channel_state', CS)
-    pre = [z3.Or(X.zint(st0.d) == ACR, X.zint(st0.d) == CR)]
+    # representation invariant of the flag types: only declared flags are ever set (from_u32 refuses anything else, the
+    # setters set declared flags only). The bit numbers are read from `mod state_flags` in the source.
+    src = open('/repo/lightning/src/ln/channel.rs').read()
+    bit = lambda nm: int(re.search(r'pub const %s: u32 = 1 << (\d+);' % nm, src).group(1))
+    allowed = [bit(nm) for nm in ('PEER_DISCONNECTED', 'MONITOR_UPDATE_IN_PROGRESS', 'REMOTE_SHUTDOWN_SENT', 'LOCAL_SHUTDOWN_SENT',
+                                  'THEIR_CHANNEL_READY', 'OUR_CHANNEL_READY', 'WAITING_FOR_BATCH')]
+    fl0 = E.en_payload(st0, 'AwaitingChannelReady', ACR, 0, 'ln::channel::AwaitingChannelReadyFlags', mem, 'spec')
+    bits0 = X.zint(E.read_path(fl0, (('f', 0, 'u32'),), mem, True, 'spec').t)
+    fb = [z3.Bool('state.flag_bit%d' % k) for k in allowed]
+    pre = [z3.Or(X.zint(st0.d) == ACR, X.zint(st0.d) == CR),
+           bits0 == sum([z3.If(b, 1 << k, 0) for b, k in zip(fb, allowed)], z3.IntVal(0))]
     others = [X.Opaque('arg%d' % i) for i in range(2, len(f.params))]
     rv1 = S.call(E, f, [ch, msg] + others, mem)
     ret1 = S.ret_guard
@@ -248,8 +258,11 @@ def channel_ready_points(S, D):
     ok1, ok2 = X.zint(rv1.d) == 0, X.zint(rv2.d) == 0
     unchanged = z3.And(nd2 == nd1, z3.Implies(nd1 == 1, nb2 == nb1), cd2 == cd1, z3.Implies(cd1 == 1, cb2 == cb1))
     claim = z3.Implies(z3.And(ret1, ok1, ret2), z3.And(unchanged, z3.Implies(ok2, same_point2)))
+    from engine_m.session import Binding
+    bat = Binding('channel_ready_battery', [z3.IntVal(0)], [z3.If(claim, 0, 1)], parse=lambda t: [0 if t[0] == '0' else 1], line_fn=lambda v: '0',
+                  which='oracle_tu', via_solver=True, domain=[(0, 0)], panic=False)
     S.prove(ids[0], E, pre, claim,
             "after the peer's channel_ready has been accepted once, a further channel_ready - in whatever state the first one left the channel (still waiting for the rest of a funding batch, our own channel_ready sent or not, channel ready) - changes neither of the peer's announced commitment points and is accepted only if it names the expected point: the point the first revoke_and_ack is checked against (C05.c) cannot be replaced by re-sending channel_ready",
-            [], bounds='two consecutive calls of channel_ready (whole function up to get_announcement_sigs) from an arbitrary AwaitingChannelReady / ChannelReady state, the real flag arithmetic of the macro-generated state-flag types; points observed through their first byte (free symbols), point comparison a free boolean',
-            assumptions=['claims are about executions in which neither call panics (debug assertion: OUR_CHANNEL_READY and WAITING_FOR_BATCH are never set together)'])
+            [bat], bounds='two consecutive calls of channel_ready (whole function up to get_announcement_sigs) from an arbitrary AwaitingChannelReady / ChannelReady state, the real flag arithmetic of the macro-generated state-flag types; points observed through their first byte (free symbols), point comparison a free boolean',
+            assumptions=['only declared flags are set in the AwaitingChannelReady state (representation invariant of the macro-generated flag types; bit numbers read from mod state_flags)', 'claims are about executions in which neither call panics (debug assertion: OUR_CHANNEL_READY and WAITING_FOR_BATCH are never set together)'])
     S.witness(ids[2], E, pre + [ret1, ok1, ret2, ok2], z3.And(X.zint(st0.d) == ACR, nd1 == 1))
